@@ -42,6 +42,12 @@ InvCount == Len(z.file) = c.nt * RecordsPerTime(c)
 InvPacking == \A s \in 1..NVars(c) : \A t \in 1..c.nt : \A l \in 1..Len(z.packs[s][t]) :
                   LET name == AllNames(c)[s] f == Field(c, name, t, LevList(c, name)[l]) p == z.packs[s][t][l] IN
                   NoWrap(p) /\ FirstExact(f, p) /\ WithinOneStep(f, p) /\ p.nexp >= 7
+\* the level texts of the configurations' kind follow the text rule
+InvLevelText ==
+  /\ LevelChars(100000) = <<"1",".","0","0","0","0">> /\ LevelChars(98000) = <<".","9","8","0","0","0">>
+  /\ LevelChars(0) = <<".","0","0","0","0","0">> /\ LevelChars(100000000) = <<"1","0","0","0",".","0">>
+  /\ LevelChars(92500000) = <<"9","2","5",".","0","0">> /\ LevelChars(5000000) = <<"5","0",".","0","0","0">>
+  /\ LevelChars(99875) = <<".","9","9","8","7","5">>
 EmitConstraint == IF IOEnv.PNC_EMIT = "1"
   THEN PrintT(ToJson([cfg |-> c, recs |-> z.file, reclen |-> RecLen(c),
                       fields |-> [s \in 1..NVars(c) |-> [t \in 1..c.nt |-> [l \in 1..Len(z.packs[s][t]) |->
